@@ -4,7 +4,7 @@ in a scratch root (MUT_ROOT, default /tmp/mr: a worktree of /repo HEAD plus a co
 records the result in meta.json next to the result of the first run (`checks_run_first`), so the
 file shows which changes were missed at first and are caught after a check was strengthened.
 
-usage: bin/seeded_recheck.py [id-prefix ...]
+usage: bin/seeded_recheck.py [id-prefix | ~substring ...]
 """
 import json, os, re, subprocess, sys
 
@@ -17,7 +17,8 @@ for name in sorted(os.listdir(os.path.join(ROOT, "seeded"))):
     mp = os.path.join(d, "meta.json")
     if not os.path.isfile(mp):
         continue
-    if only and not any(name.startswith(p) for p in only):
+    # a filter is a name prefix, or ~text for 'contains text' (e.g. ~-r3-)
+    if only and not any((p.startswith('~') and p[1:] in name) or name.startswith(p) for p in only):
         continue
     meta = json.load(open(mp))
     checks = [c["check"] for c in meta.get("checks_run_first", meta["checks_run"])]
